@@ -180,6 +180,8 @@ func runC06(c *Ctx) {
 		// "spent by an unconfirmed transaction" is read from the unconfirmed-spender index: it answers truthfully only if
 		// every input of every recorded unconfirmed transaction is entered there and leaves with it (shared with C01-R5)
 		checkConflictRemoval(c, "C06-R1")
+		// "unspent by any known confirmed transaction": confirmation marks every wallet credit the transaction spends
+		runLoopCompletenessN(c, "C06-R1", []string{"updateMinedBalance"}, 1)
 		// "confirmed the requested number of times" is judged from the heights the store records; they are those of the
 		// current chain only if a disconnected block's transactions leave it together with the tip stamp (shared with C15-R1)
 		checkCoupledRollback(c, "C06-R1")
@@ -438,6 +440,8 @@ func checkSignValidate(c *Ctx, tto *ssa.Function) {
 	checkPrevOutPerInput(c, "C06-R4")
 	checkWatchOnlyAnswerFromKeyMaterial(c, "C06-R4")
 	checkExplicitInputsPassEligibility(c, "C06-R3")
+	checkNoStaleTailAfterInPlaceFilter(c, "C06-R3")
+	checkFixedSelectionSourceIsStateless(c, "C06-R3")
 }
 
 // checkExplicitInputsPassEligibility: "explicitly selected inputs that are not eligible are refused": wherever the wallet
